@@ -39,6 +39,10 @@ def check(run):
               'CartesianRayTransferEmitter'):
         if n not in classes:
             raise AnalysisError('anchored class vanished: %s' % n)
+    # shape normalisation: private helpers (methods or module-level functions) other than the anchors of the rules are read where they are called
+    for n in ('CylindricalRayTransferIntegrator', 'CartesianRayTransferIntegrator', 'RayTransferEmitter', 'CylindricalRayTransferEmitter',
+              'CartesianRayTransferEmitter'):
+        prog.normalise_class(classes[n], keep=('_map_from_mask',), propagate=False)
     ints = [classes['CylindricalRayTransferIntegrator'], classes['CartesianRayTransferIntegrator']]
     ems = [classes['CylindricalRayTransferEmitter'], classes['CartesianRayTransferEmitter']]
     for ci in ints:
